@@ -276,11 +276,23 @@ def check(res, ctx, keys, label, kinds=('identity', 'shared')):
                               % (label, p.arg, src(d), how), func=key[1])
         # RP.shared: empty module-level containers
         for nm, cnode in m.constants.items():
-            if '.' in nm or not _mutable_literal(cnode, empty_only=True) or nm in binds or nm in params:
+            if '.' in nm or nm in binds or nm in params:
+                continue
+            empty = _mutable_literal(cnode, empty_only=True)
+            # ... or a list / dict / set of constants: a *value* written once at module level (`THREE_BLANKS = [None, None, None]`)
+            value_like = isinstance(cnode, (ast.List, ast.Set)) and all(isinstance(e_, ast.Constant) for e_ in cnode.elts) or \
+                isinstance(cnode, ast.Dict) and all(isinstance(e_, ast.Constant) for e_ in list(cnode.keys) + list(cnode.values) if e_ is not None)
+            if not (empty or value_like):
                 continue
             if not any(isinstance(x, ast.Name) and x.id == nm for x in walk_no_defs(f)):
                 continue
             uses = [(nd, how) for nd, how in _handed_out(f, nm) if how in ('returned', 'yielded')]
+            # stored into a slot of a parameter (the return channel of a grammar action: p[0] = X; an output argument)
+            for nd, how in _handed_out(f, nm):
+                if how.startswith('stored in ') and isinstance(nd, ast.Assign):
+                    for t in nd.targets:
+                        if isinstance(t, ast.Subscript) and isinstance(t.value, ast.Name) and t.value.id in params:
+                            uses.append((nd, 'handed out through %s' % src(t)))
             if not uses:
                 continue
             # a registry that the module itself fills is a table, not an empty result
@@ -299,7 +311,7 @@ def check(res, ctx, keys, label, kinds=('identity', 'shared')):
                 node, how = uses[0]
                 res.violation(RULE, '%s:%s:shared-empty:%s' % (key[0], key[1], nm), m.where(node),
                               '%s: the module-level %s = %s is %s as the result - one object shared by every call, so what one caller does '
-                              'with its (empty) result changes what later calls return' % (label, nm, src(cnode), how), func=key[1])
+                              'with its result changes what later calls return' % (label, nm, src(cnode)[:60], how), func=key[1])
     return n
 
 
